@@ -543,18 +543,10 @@ theorem c09_pending_pays (c : Cfg) (s : SState) (him : Image s) (aid t g : Nat)
   simp only
   rw [srunO_cons _ _ _ _ _ _ _ h2]
   simp only [srunO, Option.map_some, List.nil_append]
-  have hst : ({ s with ds := some (.free, g + 1),
-                     attempts := (if s.attempts.contains aid then s.attempts else s.attempts ++ [aid]),
-                     active := some (probeE info s.nextInv amount expiry,
-                       { pc := .waitHtlcs (s.mono + (c.mppTimeout - (s.wall - t))), served := [] }),
-                     nextInv := s.nextInv + 1 } : SState) =
-      { ({ s with ds := some (.free, g + 1),
-             attempts := (if s.attempts.contains aid then s.attempts else s.attempts ++ [aid]), nextInv := s.nextInv + 1 } : SState) with
-        active := some (probeE info s.nextInv amount expiry,
-                       { pc := .waitHtlcs (s.mono + (c.mppTimeout - (s.wall - t))), served := [] }) } := rfl
+  have hst : ({ s with ds := some (.free, g + 1), attempts := (if s.attempts.contains aid then s.attempts else s.attempts ++ [aid]), active := some (probeE info s.nextInv amount expiry, { pc := .waitHtlcs (s.mono + (c.mppTimeout - (s.wall - t))), served := [] }), nextInv := s.nextInv + 1 } : SState) =
+      { ({ s with ds := some (.free, g + 1), attempts := (if s.attempts.contains aid then s.attempts else s.attempts ++ [aid]), nextInv := s.nextInv + 1 } : SState) with active := some (probeE info s.nextInv amount expiry, { pc := .waitHtlcs (s.mono + (c.mppTimeout - (s.wall - t))), served := [] }) } := rfl
   rw [hst]
-  have hpt : probeTail s pid x = probeTail { s with ds := some (.free, g + 1),
-             attempts := (if s.attempts.contains aid then s.attempts else s.attempts ++ [aid]), nextInv := s.nextInv + 1 } pid x := rfl
+  have hpt : probeTail s pid x = probeTail { s with ds := some (.free, g + 1), attempts := (if s.attempts.contains aid then s.attempts else s.attempts ++ [aid]), nextInv := s.nextInv + 1 } pid x := rfl
   rw [hpt, hs']
   rfl
 
@@ -573,7 +565,7 @@ theorem c09_pinned_wedge :
 /-! Non-vacuity: the hypotheses of the image theorems are met by concrete images. -/
 example : Image { SState.init with ds := some (.pending 1 0, 0), nextAid := 2, parts := [⟨1, .failed⟩] } :=
   ⟨rfl, rfl, rfl, rfl, by intro a ha; simp [SState.init] at ha,
-   by intro a t g h; simp only [Option.some.injEq, Prod.mk.injEq, DsVal.pending.injEq] at h; omega⟩
+   by intro a t g h; simp only [Option.some.injEq, Prod.mk.injEq, DsVal.pending.injEq] at h; obtain ⟨⟨h1, _⟩, _⟩ := h; subst h1; decide⟩
 example : ProbeOk { cltvDelta := 34, policyDelta := 144, feeBase := 1000, feePpm := 5000, mppTimeout := 60 }
     ⟨0, 1000000, true⟩ 1006000 300 1006000 := ⟨by decide, by decide, by decide, by decide⟩
 
